@@ -51,7 +51,9 @@ CLAIMS = {
              "insertions/replacements; every disagreement not explained by a listed deviation is a violation; typed-accessor "
              "reachability via a walker GENERATED from the asts! table (Rust, real accessors) vs the Lean AstWalk model; the 39 "
              "LLVM files parse clean.",
-        note="Accessor clause: accessors_reach_all / every_node_accessible (for every fragment program every node of the parse tree "
+        note="forward_partial and the accessor theorems carry the side condition `Src.endMessage input = none` (no conditional left "
+             "open at the end of the text; without it the statement is false: forward_needs_clean_end), forward_partial_end is the "
+             "hypothesis-free form (errors = the end-of-text error, if any). Accessor clause: accessors_reach_all / every_node_accessible (for every fragment program every node of the parse tree "
              "is reached through the typed accessors of the REGENERATED asts! table, accessor results in source order) - proved. "
              "Converse: reporting discipline + type_converse_partial + statement_skeleton_converse (include/defvar/dump/assert/class "
              "skeleton relative to the documented grammar extended by what a clean run of `value` consumes); outside that decided "
@@ -265,8 +267,10 @@ CLAIMS = {
              "the tokens the preprocessor model delivers to the parser are exactly those of the declarative reference evaluation "
              "(macro defined only by an earlier enabled #define), no preprocessor Error token, nothing from disabled regions "
              "(disabled_skips for any depth); missing_name_* theorems; eat_refine proves the concrete model Src.eat is the abstract "
-             "machine over the lexer token stream. UnterminatedReported is false on the current tree (witness theorem, known "
-             "finding). Tied to preprocessor.rs by exhaustive correspondence over all directive sequences <= 4 (quick) / <= 6 "
+             "machine over the lexer token stream. unterminated_reported: every unterminated arrangement (enabled or skipped, any "
+             "depth) parses with 'reached EOF without matching #endif' at (len,len) as its last error; wellnested_no_eof_error; "
+             "end_message_is_eof_message (the error the parser appends at the end is never a stale lexer message, for every "
+             "input); skipped_lexical_errors_dropped; directive_error_drops_lexer_message (repaired in 59e1067). Tied to preprocessor.rs by exhaustive correspondence over all directive sequences <= 4 (quick) / <= 6 "
              "(thorough) over two macro names and a marker, plus random nestings checked through the IDE layer.",
         note="Model: Prep.lean/PrepSpec.lean vs preprocessor.rs. The hypothesis that directive text lexes into directive tokens is "
              "discharged by correspondence, not by a theorem (C14).",
